@@ -92,7 +92,7 @@ def r1_per_step_extraction(ctx):
     ok = all(g.all_paths_pass(e, [header], mnodes) for e in en)
     ctx.check(ok, RUN + "#merge-every-step", "every step's extraction reaches the accumulator" if ok else "a path through the step drops the extracted slice", where=f, node=merges[0])
     for s in merges:
-        v = s.value
+        v = expand(f, s.value, _seen={part, acc})
         used = names_in(v)
         tests = enclosing_tests(s, stop=lp)
         first_only = any(pol and norm(t) in (f"{acc}.is_empty", f"not {acc}", f"{acc} is None", f"len({acc}) == 0") for t, pol in tests) or any((not pol) and norm(t) in (f"not {acc}.is_empty", acc) for t, pol in tests)
@@ -102,7 +102,8 @@ def r1_per_step_extraction(ctx):
             ok = dotted(v) == part
             ctx.check(ok, RUN + "#merge-first", "first step: accumulator = step result" if ok else f"first step stores {norm(v)[:80]}", where=f, node=s)
         else:
-            has_merge = any(isinstance(c, ast.Call) and any(k in call_name(c) for k in ("merge", "concat", "combine")) for c in ast.walk(v))
+            bodies = [v] + [f.nested[n.id].node for n in ast.walk(v) if isinstance(n, ast.Name) and n.id in f.nested]  # a named local function handed to map_over_datasets
+            has_merge = any(isinstance(c, ast.Call) and any(k in call_name(c) for k in ("merge", "concat", "combine")) for b in bodies for c in ast.walk(b))
             ok = acc in used and has_merge
             ctx.check(ok, RUN + "#merge-later", "later steps: merge(accumulated, step result)" if ok else f"later steps overwrite the accumulated slices: {norm(s)[:100]}", where=f, node=s)
 
